@@ -167,7 +167,14 @@ def auto_detect_theories(exprs):
         # now check whether theory is relevant for any of the nodes
         enabled = False
         for node in nodes.dfs(exprs, max_depth=1):
-            if theory.is_relevant(node):
+            try:
+                relevant = theory.is_relevant(node)
+            except Exception as e:
+                # is_relevant() inspects declarations and may fail on
+                # ill-formed ones, e.g., (declare-const x)
+                logging.debug(f'{type(e)} in is_relevant of {name}: {e}')
+                relevant = False
+            if relevant:
                 enabled = True
                 break
 
